@@ -40,6 +40,11 @@ func (e *Explorer) noteTrace(p []LBlock) {
 	if e.ConformanceDepth == 0 {
 		return
 	}
+	for _, b := range p {
+		if b.Reimport {
+			return // the block pipeline has no counterpart of a mid-history state hand-over (C18 restarts real chains)
+		}
+	}
 	keep := len(p) <= e.ConformanceDepth
 	if !keep {
 		h := sha256.Sum256([]byte(fmt.Sprint(p)))
